@@ -4,6 +4,12 @@
 
 package rawmessagesfilter
 
+// The term installed in the filter works on the filter's own state object and carries the filter's member id: what the
+// filter establishes about a message (this height, not from me) is then what the term's handlers require (FilterOK, C08).
+//@ pred TermWired(t *leanhelixterm.LeanHelixTerm, f *RawMessageFilter) = t != nil && t.ConsensusMessagesFilter != nil && (t.ConsensusMessagesFilter.handler == nil ||
+//@   | (istype(t.ConsensusMessagesFilter.handler, *termincommittee.TermInCommittee) && dyn(t.ConsensusMessagesFilter.handler, *termincommittee.TermInCommittee) != nil
+//@   |  && dyn(t.ConsensusMessagesFilter.handler, *termincommittee.TermInCommittee).State == f.state && dyn(t.ConsensusMessagesFilter.handler, *termincommittee.TermInCommittee).myMemberId == f.myMemberId))
+
 // Delivery of a message to the protocol logic of the current term. The preconditions are the statement of C17
 // (and the FilterOK facts the handlers of C08 rely on); they are obligations at every delivery site of the filter.
 // The callee is the term: handling a message may commit the block, which starts the next height and re-enters
@@ -13,6 +19,7 @@ package rawmessagesfilter
 //@   requires [own-instance] message.InstanceId() == caller.instanceId
 //@   requires [not-from-me] message.SenderMemberId() != caller.myMemberId
 //@   requires [O17.the-installed-term-is-the-term-of-the-current-height] TermHeightOf(dyn(self, *leanhelixterm.LeanHelixTerm)) == caller.state.height
+//@   requires [O8.the-installed-term-is-wired-to-this-filter] TermWired(dyn(self, *leanhelixterm.LeanHelixTerm), caller)
 //@   modifies state.State.height, state.State.view, rawmessagesfilter.RawMessageFilter.consensusMessagesHandler, rawmessagesfilter.RawMessageFilter.latestFutureBlockHeight, M:Int:Slice_Iface, ghost:ndelivered, ghost:delivered, ghost:lastRoundHeight, ghost:lastCommitHeight, M:S_state_HeightView:Int
 //@   ensures ndelivered >= old(ndelivered) + 1 && delivered[old(ndelivered)] == message
 //@   ensures forall j int :: 0 <= j && j < old(ndelivered) ==> delivered[j] == old(delivered[j])
@@ -20,6 +27,7 @@ package rawmessagesfilter
 //@   ensures caller.state.height == old(caller.state.height) ==> (forall k int :: has(caller.futureCache, k) == old(has(caller.futureCache, k)) && caller.futureCache[k] == old(caller.futureCache[k]))
 //@   ensures caller.state.height >= old(caller.state.height)
 //@   ensures [O17.installed-term-follows-the-height] (caller.consensusMessagesHandler != nil ==> TermHeightOf(dyn(caller.consensusMessagesHandler, *leanhelixterm.LeanHelixTerm)) == caller.state.height)
+//@   ensures [O8.the-installed-term-is-wired-to-this-filter] (caller.consensusMessagesHandler != nil ==> TermWired(dyn(caller.consensusMessagesHandler, *leanhelixterm.LeanHelixTerm), caller))
 //@   ensures lastRoundHeight >= old(lastRoundHeight) && lastCommitHeight >= old(lastCommitHeight) && (old(lastRoundHeight) <= old(caller.state.height) ==> lastRoundHeight <= caller.state.height)
 //@   ensures old(lastCommitHeight) <= old(caller.state.height) ==> lastCommitHeight <= caller.state.height
 //@   ensures caller.state.height == old(caller.state.height) ==> lastRoundHeight == old(lastRoundHeight)
@@ -41,6 +49,7 @@ package rawmessagesfilter
 
 //@ func (*RawMessageFilter).HandleConsensusRawMessage
 //@   inv [O17.the-installed-term-is-the-term-of-the-current-height] (f.consensusMessagesHandler != nil ==> TermHeightOf(dyn(f.consensusMessagesHandler, *leanhelixterm.LeanHelixTerm)) == f.state.height)
+//@   inv [O8.the-installed-term-is-wired-to-this-filter] (f.consensusMessagesHandler != nil ==> TermWired(dyn(f.consensusMessagesHandler, *leanhelixterm.LeanHelixTerm), f))
 //@   ensures [height-forward] f.state.height >= old(f.state.height) && f.state == old(f.state) && lastRoundHeight >= old(lastRoundHeight) && (old(lastRoundHeight) <= old(f.state.height) ==> lastRoundHeight <= f.state.height)
 //@   ensures [commits-below-state] lastCommitHeight >= old(lastCommitHeight) && (old(lastCommitHeight) <= old(f.state.height) ==> lastCommitHeight <= f.state.height) && ndelivered >= old(ndelivered)
 //@   ensures [no-round-without-height-change] f.state.height == old(f.state.height) ==> lastRoundHeight == old(lastRoundHeight)
@@ -63,7 +72,9 @@ package rawmessagesfilter
 
 //@ func (*RawMessageFilter).ConsumeCacheMessages
 //@   requires [O17.the-term-being-installed-is-the-term-of-the-current-height] consensusMessagesHandler != nil ==> TermHeightOf(dyn(consensusMessagesHandler, *leanhelixterm.LeanHelixTerm)) == f.state.height
+//@   requires [O8.the-installed-term-is-wired-to-this-filter] consensusMessagesHandler != nil ==> TermWired(dyn(consensusMessagesHandler, *leanhelixterm.LeanHelixTerm), f)
 //@   ensures [O17.the-installed-term-is-the-term-of-the-current-height] (f.consensusMessagesHandler != nil ==> TermHeightOf(dyn(f.consensusMessagesHandler, *leanhelixterm.LeanHelixTerm)) == f.state.height)
+//@   ensures [O8.the-installed-term-is-wired-to-this-filter] (f.consensusMessagesHandler != nil ==> TermWired(dyn(f.consensusMessagesHandler, *leanhelixterm.LeanHelixTerm), f))
 //@   ensures [height-forward] f.state.height >= old(f.state.height) && f.state == old(f.state) && lastRoundHeight >= old(lastRoundHeight) && (old(lastRoundHeight) <= old(f.state.height) ==> lastRoundHeight <= f.state.height)
 //@   ensures [commits-below-state] lastCommitHeight >= old(lastCommitHeight) && (old(lastCommitHeight) <= old(f.state.height) ==> lastCommitHeight <= f.state.height) && ndelivered >= old(ndelivered)
 //@   ensures [no-round-without-height-change] f.state.height == old(f.state.height) ==> lastRoundHeight == old(lastRoundHeight)
@@ -82,6 +93,7 @@ package rawmessagesfilter
 //@     invariant [commits] lastCommitHeight >= old(lastCommitHeight) && (old(lastCommitHeight) <= old(f.state.height) ==> lastCommitHeight <= f.state.height)
 //@     invariant [rounds] lastRoundHeight >= old(lastRoundHeight) && (old(lastRoundHeight) <= old(f.state.height) ==> lastRoundHeight <= f.state.height) && (f.state.height == old(f.state.height) ==> lastRoundHeight == old(lastRoundHeight))
 //@     invariant [installed-term] f.consensusMessagesHandler != nil ==> TermHeightOf(dyn(f.consensusMessagesHandler, *leanhelixterm.LeanHelixTerm)) == f.state.height
+//@     invariant [O8.the-installed-term-is-wired-to-this-filter] f.consensusMessagesHandler != nil ==> TermWired(dyn(f.consensusMessagesHandler, *leanhelixterm.LeanHelixTerm), f)
 //@     invariant [messages-are-the-cached-ones] messages == old(f.futureCache[old(f.state.height)])
 //@     invariant [log.count] consensusMessagesHandler != nil && f.state.height == height ==> ndelivered == old(ndelivered) + $i && f.consensusMessagesHandler == consensusMessagesHandler
 //@     invariant [log.elems] consensusMessagesHandler != nil && f.state.height == height ==> (forall j int :: old(ndelivered) <= j && j < old(ndelivered) + $i ==> delivered[j] == messages[j - old(ndelivered)])
